@@ -193,7 +193,10 @@ func init() {
 			if tx := s.Tx(h); tx != nil {
 				size := tx.Size()
 				other := filepath.Join(dir, "other.db")
-				if _, berr := BuildFile(other, Opts{PageSize: sc.Opts.PageSize}, s.Prof, sc.Seed+991, GenCfg{Keys: 12, Vals: 5, MaxDepth: 2, Txs: 4, OpsPerTx: 8}); berr == nil {
+				Uninstall() // the other database is not part of the trace
+				_, berr := BuildFile(other, Opts{PageSize: sc.Opts.PageSize}, s.Prof, sc.Seed+991, GenCfg{Keys: 12, Vals: 5, MaxDepth: 2, Txs: 4, OpsPerTx: 8})
+				s.T.Install()
+				if berr == nil {
 					if fi, e2 := os.Stat(other); e2 == nil && fi.Size() < size+int64(sc.Opts.PageSize) {
 						_ = os.Truncate(other, size+int64(sc.Opts.PageSize))
 					}
